@@ -193,13 +193,17 @@ def rule_Y5(ctx) -> None:
         ctx.refuted("Y5", "template:field-line-outside-pydantic-conditionals", "inside", T_BODY, "the field definition line is rendered under a pydantic_dataclasses conditional: field numbers/types can differ between the two modes")
     else:
         ctx.proved("Y5", "template:field-line-outside-pydantic-conditionals", T_BODY)
-    # one-of compiler selection
-    mk = parser.func("_make_one_of_field_compiler")
-    s = ast.unparse(mk)
-    if "PydanticOneOfFieldCompiler if pydantic else OneOfFieldCompiler" in s:
-        ctx.proved("Y5", "oneof-compiler-selection", parser.loc(mk))
+    # one-of compiler selection: the pydantic variant exactly when the output package is in pydantic mode
+    from .c03 import field_compiler_paths
+    _, rfn, rows = field_compiler_paths(ctx)
+    sel = {(pyd, c[0]) for is_map, is_oneof, pyd, c in rows if is_map is False and is_oneof is True and len(c) == 1}
+    if sel == {(True, "PydanticOneOfFieldCompiler"), (False, "OneOfFieldCompiler")}:
+        ctx.proved("Y5", "oneof-compiler-selection", parser.loc(rfn))
+    elif not sel or any(p_ is None for p_, _ in sel):
+        ctx.inconclusive("Y5", "oneof-compiler-selection", f"selection not recognised: {sorted(map(str, sel))}", parser.loc(rfn))
     else:
-        ctx.inconclusive("Y5", "oneof-compiler-selection", "selection expression not recognised", parser.loc(mk))
+        ctx.refuted("Y5", "oneof-compiler-selection", str(sorted(map(str, sel))), parser.loc(rfn),
+                    f"oneof members are compiled by {sorted(map(str, sel))} (pydantic flag, class): the pydantic variant must be used exactly in pydantic mode")
 
 
 def rule_Y6(ctx) -> None:
